@@ -13,6 +13,7 @@ mod md;
 mod live;
 mod c15;
 mod tl;
+mod c11;
 
 fn main() {
     let argv: Vec<String> = std::env::args().collect();
@@ -33,6 +34,7 @@ fn main() {
         "c15" => c15::run(&a),
         "tl" => tl::run(&a),
         "reuse" => tl::run_reuse(&a),
+        "c11" => c11::run(&a),
         x => { eprintln!("unknown subcommand {x}"); std::process::exit(2); }
     }
 }
